@@ -169,3 +169,57 @@ Proof. intros Hf Hn Hin. pose proof Hinv as [Nd K].
   - (* not held: untouched, never logged *)
     rewrite (entry_same_refl st0 st' c x G A Mx). apply cnt_memN in B. rewrite B. reflexivity. Qed.
 End VacEntry.
+
+(* ---------- the whole removal case ---------- *)
+Lemma nil_is_empty (l : list N) : l = [] -> match l with [] => true | _ => false end = true.
+Proof. intros ->. reflexivity. Qed.
+Lemma vacate_inv pc e ord lord st f : inv st -> inv (fst (vacate pc e ord lord st f)).
+Proof. intros I. unfold vacate. destruct (pc_norepin pc); [exact I|]. rewrite repin_loop_fold. now apply loop_inv. Qed.
+
+Lemma vacate_same_keys pc e ord lord st f : list_oracle lord -> inv st -> same_keys st (fst (vacate pc e ord lord st f)) = true.
+Proof. intros Lo I. unfold same_keys. apply andb_true_iff. split; apply subsetb_incl; intros h Hh; apply in_keys_iff; apply in_keys_iff in Hh.
+  - now apply vacate_keeps_l.
+  - intros Hn. apply Hh. now apply vacate_no_new_l. Qed.
+
+(* the record the harness would write for a removal run on the model: one step, by peer `self` *)
+Definition vac_case (id : N) (dmin dmax : Z) (rv : bool) (hpt hct : list (N * N)) (members untrusted : list N) (ms : list metric)
+           (ls : list (N * list N)) (st0l : list pin) (f self : N) (fol norep : bool)
+           (ord : N -> list N -> list N) (lord : list pin -> list pin) : case :=
+  let r := vacate (mk_pcfg (mk_cfg dmin dmax fol rv) norep) (mk_env 0 ms [] ls) ord lord (of_list st0l) f in
+  (id, (dmin, dmax, rv, hpt, hct, members, untrusted, ms, ls, st0l,
+        (2%N, f, [(self, fol, norep, false, snd r, map snd (fst r))]), [])).
+
+Theorem vacate_model_passes_monitor_l id dmin dmax rv hpt hct members untrusted ms ls st0l f self fol norep ord lord :
+  inv (of_list st0l) -> meta_ok (of_list st0l) -> no_update (of_list st0l) -> typed_ok f (of_list st0l) ->
+  list_oracle lord -> map_oracle ord -> NoDup (map mpeer ms) ->
+  forall t, ~ In (id, 2%N, t) (check_case (vac_case id dmin dmax rv hpt hct members untrusted ms ls st0l f self fol norep ord lord)).
+Proof. intros Hinv Hmeta Hnu Hty Hlo Hor Hms t. unfold vac_case. cbv zeta.
+  set (st0 := of_list st0l) in *. set (e := mk_env 0 ms [] ls). set (pc := mk_pcfg (mk_cfg dmin dmax fol rv) norep).
+  set (st' := fst (vacate pc e ord lord st0 f)). set (logs := snd (vacate pc e ord lord st0 f)).
+  pose proof (vacate_inv pc e ord lord st0 f Hinv) as Hinv'. fold st' in Hinv'.
+  assert (Eof : of_list (map snd st') = st') by (apply of_list_values; [apply Hinv' | apply inv_keyed, Hinv']).
+  assert (Efs : final_state st0 [(self, fol, norep, false, logs, map snd st')] = st') by (unfold final_state; cbn [rev app snd]; exact Eof).
+  cbn [check_case]. cbv zeta. fold st0. fold e. rewrite !Efs.
+  match goal with |- ~ In _ (_ ++ (if ?g && ?b then [] else _)) => assert (G : g && b = true) end.
+  2:{ rewrite G. rewrite app_nil_r. destruct (runs_eqb _ _ _ _ _ _ _ _ _ _ _ _ && _); [intros []|]. intros [E|[]]. discriminate. }
+  apply andb_true_iff. split.
+  - (* the global clauses *) rewrite !andb_true_iff. split; [split; [split|]|].
+    + apply nodupb_NoDup, Hinv'.
+    + cbn [idle_ok step_fol step_norep step_recd step_logs fst snd N.ltb N.eqb N.compare Pos.compare Pos.compare_cont orb andb]. rewrite Eof.
+      rewrite !andb_true_r. destruct (fol || norep) eqn:Hi.
+      * destruct (vac_idle dmin dmax rv ms ls f fol norep ord lord st0 Hi) as [Es El]. fold e pc in Es, El. fold st' in Es. fold logs in El.
+        rewrite orb_false_r. rewrite El, Es. rewrite st_eqb_refl; [reflexivity | apply Hinv | exact Hmeta].
+      * rewrite orb_false_r. reflexivity.
+    + reflexivity.
+    + cbn [N.ltb N.compare Pos.compare Pos.compare_cont]. apply vacate_same_keys; auto.
+  - (* no entry fails its test *)
+    cbn [N.ltb N.compare Pos.compare Pos.compare_cont].
+    apply nil_is_empty. apply repin_bad_entries. intros c x Hin.
+    destruct (fol || norep) eqn:Hi.
+    + (* idle: the eligibility flag is off *)
+      match goal with |- entry_okb _ _ _ ?a ?b _ _ _ _ _ _ = true => assert (Eb : b = false) end.
+      { clear -Hi. cbn [filter step_self fst snd]. destruct (negb (memN self untrusted)); [|reflexivity].
+        cbn [forallb step_fol step_norep fst snd]. destruct fol, norep; try discriminate Hi; reflexivity. }
+      rewrite Eb. apply (vac_entry_idle dmin dmax rv ms ls f self fol norep ord lord st0 Hinv Hmeta); auto.
+    + apply orb_false_iff in Hi. destruct Hi as [Hf Hn].
+      apply (vac_entry_active dmin dmax rv ms ls f self fol norep ord lord st0 Hinv Hmeta Hnu Hty Hlo Hor Hms); auto. Qed.
